@@ -25,7 +25,8 @@ class Expression:
     def compile(self, out, flags):
         if not out.has_available_blocks(self.num_blocks):
             func, params = self.functionalize(out, flags, is_generator=False)
-            out += (STATUS, RESULT, POS) << func(*params)
+            # The helper may call other rules, so it is a generator, too.
+            out += (STATUS, RESULT, POS) << Code('(yield from ', func(*params), ')')
             return
 
         if self.is_tagged:
@@ -66,6 +67,10 @@ class Expression:
 
         with out.global_section():
             with out.DEF(name, params):
+                if not is_generator:
+                    # Make sure this is a generator function, even when the
+                    # expression itself never yields.
+                    out += Code('yield from ()')
                 self.compile(out, flags)
                 method = out.YIELD if is_generator else out.RETURN
                 method((STATUS, RESULT, POS))
